@@ -125,7 +125,7 @@ theorem inv_upd {g : Ghost} {s : State} (hi : Inv g s) (e : Entry) (n : Nat) :
         · simp [hcc]
         · have : ¬ e.result.toNat = c := fun h => hcc h.symm
           simp [hcc, this]
-    refine { clock := by rw [c1]; exact hi.clock, cur := by rw [i1]; exact hi.cur,
+    refine { clock := by rw [c1]; exact hi.clock, nowClock := hi.nowClock, chi := hi.chi, cur := by rw [i1]; exact hi.cur,
              lim := by simp only [State.limitHours, l1]; exact hi.lim, ivl := by rw [l1]; exact hi.ivl,
              en := by rw [en1]; exact hi.en, lo := hi.lo, hi := hi.hi,
              evHour := ?_, evKept := ?_, dbUp := ?_, curUp := ?_, curLo := ?_, dbLo := ?_ }
@@ -180,17 +180,18 @@ theorem inv_move {g : Ghost} {s s' : State} (hi : Inv g s) (id ms : Nat) (en d :
     (hC : s'.curr.serialize = if id = g.now then s.curr.serialize else UnitDB.empty)
     (hG : ∀ h, h ≠ id → inWindow id (ms / msPerHour) h = true →
       s'.db.get h = if h = g.now then some s.curr.serialize else s.db.get h) :
-    Inv { evs := rekeep (inWindow id (ms / msPerHour)) g.evs, now := id, limit := ms / msPerHour,
+    Inv { evs := rekeep (inWindow id (ms / msPerHour)) g.evs, now := id, clock := id, limit := ms / msPerHour,
           enabled := en, dom := d } s' := by
   have hup : ∀ (h : Nat) (sel : Sel),
-      upperAt { evs := rekeep (inWindow id (ms / msPerHour)) g.evs, now := id, limit := ms / msPerHour,
+      upperAt { evs := rekeep (inWindow id (ms / msPerHour)) g.evs, now := id, clock := id, limit := ms / msPerHour,
                 enabled := en, dom := d } h sel = upperAt g h sel := by
     intro h sel; simp only [upperAt]; exact upAt_rekeep ..
   have hlo : ∀ (h : Nat) (sel : Sel),
-      lowerAt { evs := rekeep (inWindow id (ms / msPerHour)) g.evs, now := id, limit := ms / msPerHour,
+      lowerAt { evs := rekeep (inWindow id (ms / msPerHour)) g.evs, now := id, clock := id, limit := ms / msPerHour,
                 enabled := en, dom := d } h sel ≤ lowerAt g h sel := by
     intro h sel; simp only [lowerAt]; exact loAt_rekeep_le ..
-  refine { clock := hclock, cur := hcur, lim := by simp only [State.limitHours, hlim], ivl := by rw [hlim]; exact hv,
+  refine { clock := hclock, nowClock := Nat.le_refl _, chi := hid2, cur := hcur,
+           lim := by simp only [State.limitHours, hlim], ivl := by rw [hlim]; exact hv,
            en := hen, lo := Nat.le_trans hi.lo hid, hi := hid2,
            evHour := ?_, evKept := ?_, dbUp := ?_, curUp := ?_, curLo := ?_, dbLo := ?_ }
   · intro e' he'
@@ -222,7 +223,7 @@ theorem inv_move {g : Ghost} {s s' : State} (hi : Inv g s) (id ms : Nat) (en d :
       rw [hsame] at this
       exact Nat.le_trans (hsame ▸ hlo id sel) (hsame ▸ hi.curLo sel)
     · simp only [hsame, if_false]
-      have : lowerAt { evs := rekeep (inWindow id (ms / msPerHour)) g.evs, now := id, limit := ms / msPerHour,
+      have : lowerAt { evs := rekeep (inWindow id (ms / msPerHour)) g.evs, now := id, clock := id, limit := ms / msPerHour,
                        enabled := en, dom := d } id sel = 0 := by
         apply Nat.eq_zero_of_le_zero
         refine Nat.le_trans (hlo id sel) ?_
@@ -242,7 +243,7 @@ theorem inv_move {g : Ghost} {s s' : State} (hi : Inv g s) (id ms : Nat) (en d :
       · simp only [hn, if_true, optVal]; exact hi.curLo sel
       · simp only [hn, if_false]; exact hi.dbLo h hn sel
     · have hw' : inWindow id (ms / msPerHour) h = false := by simpa using hw
-      have : lowerAt { evs := rekeep (inWindow id (ms / msPerHour)) g.evs, now := id, limit := ms / msPerHour,
+      have : lowerAt { evs := rekeep (inWindow id (ms / msPerHour)) g.evs, now := id, clock := id, limit := ms / msPerHour,
                        enabled := en, dom := d } h sel = 0 := by
         simp only [lowerAt]; exact loAt_rekeep_zero _ _ _ _ hw'
       rw [this]; exact Nat.zero_le _
